@@ -117,7 +117,8 @@ def _klatt_job(job):
 def _point_job(job):
     items, start, workdir = job
     out = []
-    for k, (klass, lo, hi, pts) in enumerate(items):
+    for k0, (klass, lo, hi, pts) in enumerate(items):
+        k = start + k0                   # the item's own index (jobs may be handed their items one at a time)
         out += K.point_events(klass, lo, hi, pts, 0, workdir, compact=(k % 3 == 1), final_newline=(k % 5 != 2))
     return out
 
